@@ -1,0 +1,46 @@
+//go:build verif
+
+// Contracts for package csv, checked by /verif (govc). Comment-only: this file
+// contributes nothing to the compiled package and is only read when the
+// `verif` build tag is set.
+
+package csv
+
+//@ spec rec qpos(in Str, i int) int = i <= 0 ? 1 : qpos(in, i-1) + 1 + (sat(in, i-1) == '"' ? 1 : 0)
+
+//@ lemma qpos_mono(in Str, a int, c int)
+//@   requires 0 <= a && a < c
+//@   ensures qpos(in, a) + 1 + (sat(in, a) == '"' ? 1 : 0) <= qpos(in, c)
+//@   ensures qpos(in, a) >= 1 + a
+//@   decreases c
+//@   unfold qpos(in, c)
+//@   unfold qpos(in, a)
+//@   use qpos_mono(in, a, c-1)
+//@   use qpos_lower(in, a)
+//@   tags C05
+
+//@ lemma qpos_lower(in Str, a int)
+//@   requires 0 <= a
+//@   ensures qpos(in, a) >= 1 + a && qpos(in, a) <= 1 + 2*a
+//@   decreases a
+//@   unfold qpos(in, a)
+//@   use qpos_lower(in, a-1)
+//@   tags C05
+
+//@ func (*CSVTable).csvEscape
+//@   tags C05,C09
+//@   assigns nothing
+//@   ensures [length] len(result) == qpos(in, len(in)) + 1
+//@   ensures [quotes] result[0] == '"' && result[len(result)-1] == '"'
+//@   ensures [copied] forall k int :: {qpos(in,k)} 0 <= k && k < len(in) ==> result[qpos(in,k)] == in[k]
+//@   ensures [doubled] forall k int :: {qpos(in,k)} 0 <= k && k < len(in) && in[k] == '"' ==> result[qpos(in,k)+1] == '"'
+//@   loop#1 invariant 0 <= i && i <= len(in) && j == qpos(in, i) && len(b) == 2*len(in)+2 && max == len(in)
+//@   loop#1 invariant j <= 2*i + 1 && j >= 1
+//@   loop#1 invariant b[0] == '"'
+//@   loop#1 invariant forall k int :: {qpos(in,k)} 0 <= k && k < i ==> b[qpos(in,k)] == in[k]
+//@   loop#1 invariant forall k int :: {qpos(in,k)} 0 <= k && k < i && in[k] == '"' ==> b[qpos(in,k)+1] == '"'
+//@   loop#1 decreases len(in) - i
+//@   loop#1 unfold qpos(in, i+1)
+//@   loop#1 use forall k int :: {qpos(in,k)} qpos_mono(in, k, i)
+//@   loop#1 use qpos_lower(in, i)
+//@   entry unfold qpos(in, 0)
